@@ -125,14 +125,21 @@ func WithToken() OptionFn {
 		p := h.dataDir
 		p = path.Join(p, "token")
 
-		if _, err := os.Stat(p); os.IsNotExist(err) {
-			ioutil.WriteFile(p, []byte(uid), 0600)
-		} else if err != nil /* other error */ {
+		if data, err := ioutil.ReadFile(p); err == nil {
+			if _, err := xid.FromString(string(data)); err == nil {
+				h.token = string(data)
+				return nil
+			}
+			// empty or cut short: left by an interrupted first start, treated as absent
+		} else if !os.IsNotExist(err) {
 			return err
-		} else if data, err := ioutil.ReadFile(p); err != nil {
-			return err
-		} else {
-			uid = string(data)
+		}
+
+		// write next to the token file and rename, so that a kill at any moment leaves
+		// either no token file or a complete one
+		tmp := p + ".tmp"
+		if err := ioutil.WriteFile(tmp, []byte(uid), 0600); err == nil {
+			os.Rename(tmp, p)
 		}
 
 		h.token = uid
